@@ -45,12 +45,18 @@ def isLineEnd (le : Text) : Bool := le == [] || le == ['\n']
 /-- the physical line -/
 def tagLine (pre tag blanks w trail le : Text) : Text := pre ++ tag ++ blanks ++ w ++ trail ++ le
 
-/-- Hypotheses of the regular-expression part: the match is `(pre, w)`. -/
-def WFRaw (endRe : Re) (tag pre blanks w trail le : Text) : Bool :=
+/-- The shape of a physical tag line: `pre` on one line without an earlier `TAG[ \t]`, at least
+    one blank, a value on one line that does not start with a blank, a trail on the same line. -/
+def WFShape (tag pre blanks w trail le : Text) : Bool :=
   noNewline pre && noEarlierTag tag pre (tag ++ blanks ++ w ++ trail ++ le) &&
   !blanks.isEmpty && blanks.all isBlank &&
   (w.head?.map (fun c => !isBlank c)).getD false && noNewline w &&
-  noNewline trail && isLineEnd le &&
+  noNewline trail && isLineEnd le
+
+/-- Hypotheses of the regular-expression part (the match is `(pre, w)`): the shape, END accepts
+    the trail up to the line end, and no tail of `w` can be taken for terminators. -/
+def WFRaw (endRe : Re) (tag pre blanks w trail le : Text) : Bool :=
+  WFShape tag pre blanks w trail le &&
   endOk endRe (trail ++ le) && noEndSuffixBefore endRe w (trail ++ le)
 
 /-- the mirror image of the stripped line prefix -/
